@@ -209,25 +209,6 @@ func (s *Cron) Add(j *Job) error {
 		return err
 	}
 
-	{
-		part := s.Partition(j.Account)
-		jobs := "jobs" + part
-		exists := false
-		err := s.DB.View(func(tx *bolt.Tx) error {
-			js := tx.Bucket([]byte(jobs)).Get([]byte(j.aid))
-			if 0 < len(js) {
-				exists = true
-			}
-			return nil
-		})
-		if err != nil {
-			return err
-		}
-		if exists {
-			return Exists
-		}
-	}
-
 	if err := s.set(j); err != nil {
 		log.Printf("Cron.Add set error: %v", err)
 		return err
@@ -239,7 +220,16 @@ func (s *Cron) Add(j *Job) error {
 		return err
 	}
 
-	return s.DB.Update(f)
+	jobs := "jobs" + s.Partition(j.Account)
+	return s.DB.Update(func(tx *bolt.Tx) error {
+		// Check for existence in the same transaction that
+		// adds the job.  Otherwise two concurrent Adds of
+		// the same job could both pass the check.
+		if 0 < len(tx.Bucket([]byte(jobs)).Get([]byte(j.aid))) {
+			return Exists
+		}
+		return f(tx)
+	})
 }
 
 func (s *Cron) update(j *Job) (func(*bolt.Tx) error, error) {
